@@ -7,7 +7,7 @@
    the number of tokens left; each is shown adequate because every iteration consumes a token.
    Third whole-model sweep, same structure as Parse/Sweep.v and Parse/Suffix.v (whose suffix facts it re-uses). *)
 From Coq Require Import List NArith ZArith Bool String Ascii Lia Arith.
-Require Import Base.Common Gen.LexTable Lex.Model Cur.Model Tree.Value Gen.Static Parse.Prim Parse.Model Parse.Suffix.
+Require Import Base.Common Gen.LexTable Lex.Model Cur.Model Tree.Value Tree.Helpers Gen.Static Parse.Prim Parse.Model Parse.Sweep Parse.Suffix.
 Import ListNotations.
 Open Scope string_scope.
 Open Scope list_scope.
@@ -872,3 +872,19 @@ Proof.
 Qed.
 Corollary script_budget_adequate d ts : statements_loop (Datatypes.S (List.length ts)) (fuel_for ts) d ts [] <> Err OutOfFuel.
 Proof. apply NF_statements_loop; [lia|]. unfold fuel_for, RK. cbn [rank]. lia. Qed.
+
+(* together with Parse/Sweep.v: every entry point ends in a tree or in one of the library's own errors *)
+Definition lib_err (e : err) : bool := match e with Crash _ | OutOfFuel => false | _ => true end.
+Theorem parser_total : forall f d ts, match run (fuel_for ts) f d None ts with Ok _ => True | Err e => lib_err e = true end.
+Proof.
+  intros f d ts. pose proof (RP_run (fuel_for ts) f d None ts I) as R. pose proof (fuel_for_adequate f d None ts) as N.
+  destruct (run (fuel_for ts) f d None ts) as [x|e]; [exact I|]. destruct e; try reflexivity; [discriminate R|exfalso; apply N; reflexivity].
+Qed.
+Theorem script_total : forall d ts,
+  match statements_loop (Datatypes.S (List.length ts)) (fuel_for ts) d ts [] with Ok _ => True | Err e => lib_err e = true end.
+Proof.
+  intros d ts. pose proof (RP_statements_loop (Datatypes.S (List.length ts)) (fuel_for ts) d ts [] (Forall_nil _)) as R.
+  pose proof (script_budget_adequate d ts) as N.
+  destruct (statements_loop _ _ d ts []) as [x|e]; [exact I|]. destruct e; try reflexivity; [discriminate R|exfalso; apply N; reflexivity].
+Qed.
+
